@@ -7,7 +7,7 @@
 (*     step on what the code really did                                    *)
 (* Environment: TRACE=<file.ndjson>                                        *)
 (***************************************************************************)
-EXTENDS TraceBase, MonC08, MonC09, MonC10, MonC13, MonC19
+EXTENDS TraceBase, MonC07, MonC08, MonC09, MonC10, MonC11, MonC13, MonC19
 
 On(name) == name \in DOMAIN IOEnv /\ IOEnv[name] = "1"
 
@@ -28,7 +28,7 @@ Init == /\ l = 1 /\ nodes = <<>> /\ env = EnvInit /\ mon = <<>>
         /\ conf = [calls |-> 0, ndiv |-> 0, divs |-> <<>>]
         /\ viol = [n |-> 0, list |-> <<>>]
 
-MonInit == [C08 |-> C08Init, C09 |-> C09Init, C10 |-> C10Init, C13 |-> C13Init, C19 |-> C19Init]
+MonInit == [C07 |-> C07Init, C11 |-> C11Init, C08 |-> C08Init, C09 |-> C09Init, C10 |-> C10Init, C13 |-> C13Init, C19 |-> C19Init]
 
 ObsOf(e, prev) ==
     [node |-> e.node, call |-> e.call, args |-> e.args, res |-> e.res, out |-> e.out,
@@ -38,7 +38,9 @@ ObsOf(e, prev) ==
     @@ (IF HasField(e, "tag") THEN [tag |-> e.tag] ELSE <<>>)
 
 MonStep(m, o) ==
-    [C08 |-> IF On("MON_C08") THEN C08Step(m.C08, o) ELSE m.C08,
+    [C07 |-> IF On("MON_C07") THEN C07Step(m.C07, o) ELSE m.C07,
+     C11 |-> IF On("MON_C11") THEN C11Step(m.C11, o) ELSE m.C11,
+     C08 |-> IF On("MON_C08") THEN C08Step(m.C08, o) ELSE m.C08,
      C09 |-> IF On("MON_C09") THEN C09Step(m.C09, o) ELSE m.C09,
      C10 |-> IF On("MON_C10") THEN C10Step(m.C10, o) ELSE m.C10,
      C13 |-> IF On("MON_C13") THEN C13Step(m.C13, o) ELSE m.C13,
